@@ -177,7 +177,14 @@ CASES += [
 G = 'src/library/prog_args/groups.cpp'
 CASES += [
     dict(id='c08-orig-creation-order-dispatch', prop='C08', file=G, expect='R5',
-         old="         if ((key_owner != nullptr)\n             && (stored_group.mpArgHandler.get() != key_owner))\n            continue;   // for\n\n", new=""),
+         old="         if ((key_owner != nullptr)\n             && (stored_group.mpArgHandler.get() != key_owner))\n            continue;   // for\n", new=""),
+    dict(id='c08-orig-value-offered-in-definition-order', prop='C08', file=G, expect='R5',
+         old="         if ((list_owner != nullptr)\n             && (stored_group.mpArgHandler.get() != list_owner))\n            continue;   // for\n", new=""),
+    dict(id='c08-orig-value-lists-stay-open', prop='C08', file=G, expect='R5',
+         old="            stored_group.mpArgHandler->endValueList();\n         } // end for\n      }\n      ArgHandlerCont&  mGroups;", new="         } // end for\n      }\n      ArgHandlerCont&  mGroups;"),
+    dict(id='c08-eq-value-lists-closed-by-loop-at-end', prop='C08', file=G, expect=None,
+         old="   if (!mContinueAfterUsage || !usage_printed)\n   {\n      for (auto const& stored_group : mArgGroups)\n      {\n         stored_group.mpArgHandler->checkMissingMandatoryCardinality();",
+         new="   for (auto & stored_group : mArgGroups)\n   {\n      stored_group.mpArgHandler->endValueList();\n   } // end for\n\n   if (!mContinueAfterUsage || !usage_printed)\n   {\n      for (auto const& stored_group : mArgGroups)\n      {\n         stored_group.mpArgHandler->checkMissingMandatoryCardinality();"),
     dict(id='c08-owner-first-abbreviation', prop='C08', file=G, expect='R5',
          old="         if (abbr_owner != nullptr)\n            throw runtime_error( \"Long argument abbreviation '--\" + arg_string\n                                 + \"' matches more than one argument\");\n         abbr_owner = handler;",
          new="         if (abbr_owner == nullptr)\n            abbr_owner = handler;"),
